@@ -1039,6 +1039,10 @@ class AbsInt:
             ty = o["ty"]
             if "fn" in o:
                 return TopV("fn")
+            if o.get("promoted") is not None and o.get("def") == fn.id and o["promoted"] < len(getattr(fn, "promoted", []) or []):
+                pv = self._eval_promoted(fn, o["promoted"], mem)
+                if pv is not None:
+                    return pv
             v = const_value(o)
             if v is None:
                 return top_of(ty)
@@ -1052,6 +1056,25 @@ class AbsInt:
             ty = o.get("ty") if p["proj"] else fn.locals[p["l"]]["ty"]
             return self.load(frame, p, mem, fn, ty)
         return TOP
+
+    def _eval_promoted(self, fn, idx, mem):
+        """`&<constant expression>` promoted out of the body (e.g. `&(1..=10_000)`): run the tiny promoted body and keep its cells."""
+        from .facts import PromotedFn
+        try:
+            pf = PromotedFn(fn, idx)
+            if len(pf.blocks) > 6:
+                return None
+            frame = "P%s#%d" % (abs(hash(fn.id)) % 10**8, idx)   # one fixed frame per promoted constant: re-evaluation in a loop must converge
+            m2 = dict(mem)
+            ret, mem_out = self._analyze(pf, frame, m2, ["promoted"])
+            if ret is None:
+                return None
+            for k, v in mem_out.items():
+                if isinstance(k, tuple) and k and k[0] == frame:
+                    mem[k] = v
+            return ret
+        except Exception:
+            return None
 
     def eval_rvalue(self, frame, rv, mem, fn, bb, si, loc, chain, dest_ty=None):
         k = rv["k"]
@@ -1212,6 +1235,15 @@ class AbsInt:
         if c is None:
             return True
         op, ra, rb, av, bv = c
+        if op == "inrange":
+            if truth and isinstance(av, Num) and ra is not None:
+                lo, hi = bv
+                cur = self._cur(mem, ra, av)
+                new = cur.copy(lo=max(cur.lo, lo.lo), hi=min(cur.hi, hi.hi), nan=False)
+                if new.lo > new.hi:
+                    return False
+                self._write_back(mem, ra, new, cur)
+            return True
         if op in ("finite", "notfinite"):
             is_fin = (op == "finite") == truth
             if is_fin and isinstance(av, Num):
@@ -1916,6 +1948,27 @@ def std_summary(ai, path, args, t, mem, frame, fn, bb, loc, chain):
     def ob(kind, ok, detail):
         ai.obligations.append(Obligation(kind, fn, bb, loc, ok, detail, tuple(chain)))
 
+    # ---- RangeInclusive::new / contains (a double comparison written as `(lo..=hi).contains(&x)`)
+    if p.endswith("RangeInclusive::<Idx>::new") and len(args) == 2 and all(isinstance(a, Num) for a in args):
+        return Tup([args[0], args[1]], tag="rangeincl")
+    if p.endswith("RangeInclusive::<Idx>::contains") and len(args) == 2:
+        r = args[0]
+        if isinstance(r, Ptr) and len(r.targets) == 1:
+            r = mem.get(next(iter(r.targets)))
+        if not (isinstance(r, Tup) and r.tag == "rangeincl"):
+            return Bool()
+        lo, hi = r.items
+        x = args[1]
+        ref = None
+        v = x if isinstance(x, Num) else None
+        if isinstance(x, Ptr) and len(x.targets) == 1:
+            ref = next(iter(x.targets))
+            v = mem.get(ref)
+        if isinstance(v, Num) and isinstance(lo, Num) and isinstance(hi, Num):
+            may_in = v.hi >= lo.lo and v.lo <= hi.hi
+            must_in = lo.hi <= v.lo and v.hi <= hi.lo and not v.nan
+            return Bool(may_in, not must_in, ("inrange", ref, None, v, (lo, hi)))
+        return Bool()
     # ---- min / max / clamp (by value)
     ord_impl = p.startswith("std::cmp::impls::<impl std::cmp::Ord for ") or p.startswith("core::cmp::impls::<impl core::cmp::Ord for ")
     if ord_impl and last in ("min", "max", "clamp") and all(isinstance(a, Num) for a in args):
